@@ -144,7 +144,22 @@ struct OverProbe {
             cfg.default_value[j] = from_bits<T>(c.def[j]);
         }
         covfie::field<B> f(pack(cfg, typename P::configuration_t{&st}));
-        typename covfie::field<B>::view_t v(f);
+        // every other case looks up through a copy of a view whose original has since been pointed at a field with
+        // another box and default, and destroyed
+        probe_stats st_other;
+        typename B::configuration_t cfg_other = cfg;
+        for (size_t k = 0; k < N; ++k) {
+            cfg_other.min[k] = cfg_other.max[k] = X(1);
+        }
+        for (size_t j = 0; j < M; ++j) {
+            cfg_other.default_value[j] = T(77);
+        }
+        covfie::field<B> other(pack(cfg_other, typename P::configuration_t{&st_other}));
+        const bool via_copy = ((c.lo[0] ^ c.hi[0] ^ c.xs.size()) & 1) != 0;
+        typename covfie::field<B>::view_t v = via_copy ? detached_view<B>(f, other) : typename covfie::field<B>::view_t(f);
+        if (via_copy) {
+            label("lookups through a copy of a view whose original was reassigned and destroyed");
+        }
         for (auto & xb : c.xs) {
             typename covfie::field<B>::coordinate_t x;
             bool outside = false;
@@ -288,7 +303,17 @@ struct OverArray {
         cfg.default_value[0] = from_bits<float>(c.def[0]);
         cfg.default_value[1] = from_bits<float>(c.def[1]);
         covfie::field<B> f(pack(cfg, typename SB::owning_data_t(s.backend())));
-        typename covfie::field<B>::view_t v(f);
+        typename B::configuration_t cfg_other = cfg;
+        for (size_t k = 0; k < N; ++k) {
+            cfg_other.min[k] = cfg_other.max[k] = I(0);
+        }
+        cfg_other.default_value[0] = 77.f;
+        covfie::field<B> other(pack(cfg_other, typename SB::owning_data_t(s.backend())));
+        const bool via_copy = ((c.lo[0] ^ c.hi[0] ^ c.xs.size()) & 1) != 0;
+        typename covfie::field<B>::view_t v = via_copy ? detached_view<B>(f, other) : typename covfie::field<B>::view_t(f);
+        if (via_copy) {
+            label("lookups through a copy of a view whose original was reassigned and destroyed");
+        }
         for (auto & xb : c.xs) {
             typename covfie::field<B>::coordinate_t x;
             bool outside = false;
